@@ -248,32 +248,66 @@ def check_isunit_q(run, f, rule='R4'):
 
 
 def check_isunittwist(run, f, k0, k1, scalar_w, rule='R4'):
-    """return isunitvec(w) or (norm(w) < tol and isunitvec(v))"""
+    """isunitvec(w) or (w == 0 and isunitvec(v)), as a boolean function of its atomic tests (whatever the control flow); the zero
+    test may be spelt norm(w) < tol * eps, abs(w) < tol * eps, iszerovec(w, tol=..) or iszero(w, tol=..)"""
+    import itertools
+    from ..boolfold import predicate_expr
     fi = FuncInfo.of(f)
-    rets = [r for r in own_returns(f.node) if r.value is not None]
-    ok = False
-    for r in rets:
-        e = canon(fi, r.value)
-        ds = disjuncts(e)
-        if len(ds) != 2:
-            continue
-        w = 'v[%s]' % k1
-        v = 'v[%s]' % k0
-        a = [d for d in ds if matches('isunitvec(%s, *_X)' % w, d) is not None or matches('isunitvec(%s, tol=__)' % w, d) is not None]
-        rest = [d for d in ds if d not in a]
-        if len(a) == 1 and len(rest) == 1:
-            cs = conjuncts(rest[0])
-            z = any(matches('norm(%s) < __' % w, c) is not None or matches('abs(%s) < __' % w, c) is not None or
-                    matches('iszerovec(%s, *_X)' % w, c) is not None or matches('iszero(%s, *_X)' % w, c) is not None
-                    for c in cs)
-            u = any(matches('isunitvec(%s, *_X)' % v, c) is not None or matches('isunitvec(%s, tol=__)' % v, c) is not None
-                    for c in cs)
-            if z and u:
-                ok = True
-    if ok:
-        run.holds(rule, f.key, 'definition', 'unit rotational part, or zero rotational and unit translational part', f=f)
-    else:
-        run.violation(rule, f.key, 'definition', 'not of the form isunitvec(w) or (w == 0 and isunitvec(v))', f=f)
+    e = predicate_expr(f.node)
+    if e is None:
+        run.error('%s: %s does not fold into one boolean expression' % (rule, f.key))
+        return
+    P = f.params[0]
+
+    class Norm(ast.NodeTransformer):
+        def visit_Call(self2, n):
+            self2.generic_visit(n)
+            if isinstance(n.func, ast.Name) and n.func.id == 'getvector' and n.args and isinstance(n.args[0], ast.Name):
+                return n.args[0]
+            # zero tests -> ZERO(x);  unit tests -> UNIT(x)   (the tolerance argument is R10's business: options are threaded)
+            if isinstance(n.func, ast.Name) and n.func.id in ('iszerovec', 'iszero') and n.args:
+                return ast.Call(func=ast.Name(id='ZERO', ctx=ast.Load()), args=[n.args[0]], keywords=[])
+            if isinstance(n.func, ast.Name) and n.func.id == 'isunitvec' and n.args:
+                return ast.Call(func=ast.Name(id='UNIT', ctx=ast.Load()), args=[n.args[0]], keywords=[])
+            return n
+
+        def visit_Compare(self2, n):
+            self2.generic_visit(n)
+            if len(n.ops) == 1 and isinstance(n.ops[0], (ast.Lt, ast.LtE)) and isinstance(n.left, ast.Call) and isinstance(n.left.func, ast.Name) \
+                    and n.left.func.id in ('norm', 'abs') and n.left.args:
+                return ast.Call(func=ast.Name(id='ZERO', ctx=ast.Load()), args=[n.left.args[0]], keywords=[])
+            return n
+    e = Norm().visit(canon(fi, e, inline=False))
+    w = '%s[%s]' % (P, k1)
+    v = '%s[%s]' % (P, k0)
+    ref = ast.parse('UNIT(%s) or (ZERO(%s) and UNIT(%s))' % (w, w, v), mode='eval').body
+    # slice spelling: v[0:3] == v[:3]
+    def key(x):
+        return ast.unparse(x).replace('[0:', '[:')
+    a1, a2 = set(), set()
+    f1 = _atoms_and_eval(e, a1)
+    f2 = _atoms_and_eval(ref, a2)
+    ren = {k: key(ast.parse(k, mode='eval').body) for k in a1 | a2}
+    if {ren[k] for k in a1} != {ren[k] for k in a2}:
+        extra = sorted({ren[k] for k in a1} ^ {ren[k] for k in a2})
+        # a predicate over other tests: a known wrong shape when the SAME part is tested twice, otherwise unrecognised
+        if len(a1) <= 3 and all(x.startswith(('UNIT(', 'ZERO(')) for x in {ren[k] for k in a1}):
+            run.violation(rule, f.key, 'definition', 'not of the form isunitvec(w) or (w == 0 and isunitvec(v)): the parts tested are %s, the definition tests %s'
+                          % (sorted({ren[k] for k in a1}), sorted({ren[k] for k in a2})), f=f)
+        else:
+            run.error('%s: %s: the predicate is written over other atomic tests than the definition (%s)' % (rule, f.key, '; '.join(extra)[:200]))
+        return
+    names1 = sorted(a1)
+    canon_names = sorted({ren[k] for k in a1})
+    for vals in itertools.product((False, True), repeat=len(canon_names)):
+        cenv = dict(zip(canon_names, vals))
+        env1 = {k: cenv[ren[k]] for k in a1}
+        env2 = {k: cenv[ren[k]] for k in a2}
+        if bool(f1(env1)) != bool(f2(env2)):
+            run.violation(rule, f.key, 'definition', 'not of the form isunitvec(w) or (w == 0 and isunitvec(v)): differs from the definition when [%s]'
+                          % ', '.join('%s%s' % ('' if b else 'not ', k) for k, b in cenv.items()), f=f)
+            return
+    run.holds(rule, f.key, 'definition', 'unit rotational part, or zero rotational and unit translational part', f=f)
 
 
 def check_class_isvalid(run, rule='R4'):
@@ -368,3 +402,91 @@ def run_r4(run, rule='R4'):
     check_isunittwist(run, prog.func('base/vectors:isunittwist'), '0:3', '3:6', False)
     check_isunittwist(run, prog.func('base/vectors:isunittwist2'), '0:2', '2', True)
     check_class_isvalid(run)
+
+
+# ---------------------------------------------------------------------------------------------------------------- formula equivalence
+def _atoms_and_eval(e, atoms):
+    """compile a boolean expression into a function of an assignment of its atoms; atoms are canonical texts"""
+    comp = {ast.NotEq: ast.Eq, ast.IsNot: ast.Is, ast.NotIn: ast.In, ast.LtE: ast.Gt, ast.GtE: ast.Lt}
+
+    def atom(x):
+        if isinstance(x, ast.Compare) and len(x.ops) == 1 and type(x.ops[0]) in comp:
+            pos = ast.Compare(left=x.left, ops=[comp[type(x.ops[0])]()], comparators=x.comparators)
+            k = ast.unparse(pos)
+            atoms.add(k)
+            return lambda env, k=k: not env[k]
+        k = ast.unparse(x)
+        atoms.add(k)
+        return lambda env, k=k: env[k]
+
+    def build(x):
+        if isinstance(x, ast.BoolOp):
+            fs = [build(v) for v in x.values]
+            if isinstance(x.op, ast.And):
+                return lambda env: all(f(env) for f in fs)
+            return lambda env: any(f(env) for f in fs)
+        if isinstance(x, ast.UnaryOp) and isinstance(x.op, ast.Not):
+            f = build(x.operand)
+            return lambda env: not f(env)
+        if isinstance(x, ast.IfExp):
+            c, a, b = build(x.test), build(x.body), build(x.orelse)
+            return lambda env: a(env) if c(env) else b(env)
+        if isinstance(x, ast.Constant) and isinstance(x.value, bool):
+            return lambda env, v=x.value: v
+        if isinstance(x, ast.Compare) and len(x.ops) > 1:
+            # a < b < c  ->  a < b and b < c
+            parts = []
+            left = x.left
+            for op, right in zip(x.ops, x.comparators):
+                parts.append(ast.Compare(left=left, ops=[op], comparators=[right]))
+                left = right
+            return build(ast.BoolOp(op=ast.And(), values=parts))
+        return atom(x)
+    return build(e)
+
+
+def check_formula(run, key, reference, what, rule='R4'):
+    """The predicate, folded into one expression over its atomic tests (whatever its control flow: early returns, nested ifs,
+    temporaries), is the same BOOLEAN FUNCTION of those tests as the reference formula -- decided by the truth table.  A predicate
+    that uses other atomic tests than the reference is UNRECOGNISED."""
+    import itertools
+    from ..boolfold import predicate_expr
+    f = run.prog.func(key)
+    fi = FuncInfo.of(f)
+    e = predicate_expr(f.node)
+    if e is None:
+        run.error('%s: %s does not fold into one boolean expression' % (rule, key))
+        return
+    e = canon(fi, e, inline=False)
+    ref = canon(fi, ast.parse(reference, mode='eval').body, inline=False)
+    a1, a2 = set(), set()
+    f1 = _atoms_and_eval(e, a1)
+    f2 = _atoms_and_eval(ref, a2)
+    if a1 != a2:
+        run.error('%s: %s: the predicate is written over other atomic tests than the reference (%s)' % (
+            rule, key, '; '.join(sorted(a1 ^ a2))[:200]))
+        return
+    names = sorted(a1)
+    if len(names) > 16:
+        run.error('%s: %s: too many atomic tests (%d)' % (rule, key, len(names)))
+        return
+    for vals in itertools.product((False, True), repeat=len(names)):
+        env = dict(zip(names, vals))
+        if bool(f1(env)) != bool(f2(env)):
+            tr = ', '.join('%s%s' % ('' if v else 'not ', k) for k, v in env.items() if True)
+            run.violation(rule, key, 'definition', '%s: as a function of its atomic tests the predicate differs from the definition, e.g. it answers %s where the '
+                          'definition answers %s when [%s]' % (what, bool(f1(env)), bool(f2(env)), tr[:400]), f=f)
+            return
+    run.holds(rule, key, 'definition', '%s (truth table over %d atomic tests)' % (what, len(names)), f=f)
+
+
+ISVECTOR_REF = (
+    "(isinstance(v, (list, tuple)) and (dim is None or len(v) == dim) and all(map(lambda x: isinstance(x, _scalartypes), v))) or "
+    "((isinstance(v, np.ndarray) and ((len(v.shape) == 1 and v.shape[0] > 0 or (v.shape[0] == 1 and v.shape[1] > 0) or (v.shape[0] > 0 and v.shape[1] == 1)) "
+    "if dim is None else (v.shape == (dim,) or v.shape == (1, dim) or v.shape == (dim, 1)))) "
+    "if isinstance(v, np.ndarray) else ((dim is None or dim == 1) and isinstance(v, _scalartypes)))")
+
+
+def check_isvector(run, rule='R4'):
+    check_formula(run, 'base/argcheck:isvector', ISVECTOR_REF,
+                  'a vector is a list/tuple of scalars of the asked length, an array of shape (n,), (1,n) or (n,1) with n > 0 (n = dim when given), or a scalar when dim is None or 1', rule=rule)
